@@ -488,6 +488,8 @@ def line_seg_pt_intersect_at_dim(
         return None
 
     point_on_line = P1 + t * (P2 - P1)
+    # The interpolated coordinate can overshoot the target by one ulp; it is the target by definition.
+    point_on_line[target_dim] = target_pt[target_dim]
     return point_on_line
 
 
